@@ -788,25 +788,41 @@ class CallMixin:
         if name == "print":
             self.notes.append("print at line %s dropped" % line)
             return k(st, VNone())
-        if name == "bisect.bisect_left" or name == "bisect.bisect_right":
+        if name in ("bisect.bisect_left", "bisect.bisect_right", "bisect.bisect"):
+            if name == "bisect.bisect":
+                name = "bisect.bisect_right"            # the module's alias
             xs, c = args[0], args[1]
+            if isinstance(c, VOpt):
+                return self.unwrap(st, ctx, c, node, lambda s, x: self.call_builtin(s, ctx, name, [xs, x] + list(args[2:]), kwargs, k, node))
             if not isinstance(xs, VList) or ops.to_int(c) is None:
                 raise Unsupported("bisect on %r" % (xs,))
             ct = ops.to_int(c)
             n = list_len(st, xs)
             arr = list_arrays(st, xs)[0]
+            # optional search window lo (third positional or keyword), hi not modelled
+            lo = args[2] if len(args) > 2 else kwargs.get("lo")
+            if len(args) > 3 or "hi" in kwargs or "key" in kwargs:
+                raise Unsupported("bisect with hi= / key=")
+            if lo is None:
+                lo_t = z3.IntVal(0)
+            else:
+                lo_t = ops.to_int(lo.val if isinstance(lo, VOpt) else lo)
+                if lo_t is None:
+                    raise Unsupported("bisect lo=%r" % (lo,))
+                # CPython: ValueError for a negative lo; lo beyond the end returns lo itself (modelled only inside the list)
+                self.oblige(st, "line%s::bisect-lo-in-range" % line, z3.And(0 <= lo_t, lo_t <= n), line, kind="precondition")
             i, j = z3.Int(fresh_name("i")), z3.Int(fresh_name("j"))
             self.oblige(st, "line%s::bisect-requires-sorted" % line,
-                        z3.ForAll([i, j], z3.Implies(z3.And(0 <= i, i < j, j < n), arr[i] <= arr[j])), line, kind="precondition")
+                        z3.ForAll([i, j], z3.Implies(z3.And(lo_t <= i, i < j, j < n), arr[i] <= arr[j])), line, kind="precondition")
             self.assumptions.add("bisect.%s returns the partition point of a sorted list (trusted)" % name.split(".")[1])
             r = z3.Int(fresh_name("bis"))
-            st.assume(z3.And(0 <= r, r <= n))
+            st.assume(z3.And(lo_t <= r, r <= n))
             kk = z3.Int(fresh_name("k"))
             if name.endswith("left"):
-                st.assume(z3.ForAll([kk], z3.Implies(z3.And(0 <= kk, kk < r), arr[kk] < ct)))
+                st.assume(z3.ForAll([kk], z3.Implies(z3.And(lo_t <= kk, kk < r), arr[kk] < ct)))
                 st.assume(z3.ForAll([kk], z3.Implies(z3.And(r <= kk, kk < n), arr[kk] >= ct)))
             else:
-                st.assume(z3.ForAll([kk], z3.Implies(z3.And(0 <= kk, kk < r), arr[kk] <= ct)))
+                st.assume(z3.ForAll([kk], z3.Implies(z3.And(lo_t <= kk, kk < r), arr[kk] <= ct)))
                 st.assume(z3.ForAll([kk], z3.Implies(z3.And(r <= kk, kk < n), arr[kk] > ct)))
             return k(st, VInt(r))
         if name == "super":
